@@ -65,9 +65,10 @@ Theorem C01_readdir_pages_partition : forall nm ns s i h n cnt,
 Proof. exact pages_partition. Qed.
 Print Assumptions C01_readdir_pages_partition.
 
-(* ... and any prefix of pages returns the corresponding prefix of the listing (from any offset) *)
+(* ... and any prefix of pages returns the corresponding prefix of the listing, from any offset that
+   lies within the listing (rdc_within: no entry was removed since the previous page) *)
 Theorem C01_readdir_pages_prefix : forall nm ns s i h n,
-  nth_error (mhandles s) i = Some h -> get_node s (href h) = Some n -> ndir n = true -> 0 <= hrdc h ->
+  nth_error (mhandles s) i = Some h -> get_node s (href h) = Some n -> ndir n = true -> 0 <= hrdc h -> rdc_within s h n ->
   Forall (fun c => 0 < c) ns ->
   let M := skipn (Z.to_nat (hrdc h)) (dir_infos s n) in
   let s' := fst (run_steps m_step s (map (rdop nm i) ns)) in
